@@ -2,6 +2,7 @@ import SkfemVerif.Model.Assembly
 import SkfemVerif.Model.BC
 import SkfemVerif.Props.C01
 import SkfemVerif.Props.C05
+import SkfemVerif.Lemmas.Galerkin
 import Mathlib.Algebra.BigOperators.Group.Finset.Basic
 import Mathlib.Algebra.BigOperators.Ring.Finset
 import Mathlib.Tactic.Ring
@@ -33,10 +34,28 @@ def loadForm (ncomp : Nat) : Sample K → Sample K → K :=
   fun v w => ∑ c ∈ Finset.range ncomp, w c * v c
 
 theorem C06_massForm_bilinear (ncomp : Nat) : C01.IsBilinear (massForm (K := K) ncomp) := by
-  sorry
+  constructor
+  · intro a a' b w
+    simp only [massForm, Pi.add_apply, add_mul, Finset.sum_add_distrib]
+  · intro c a b w
+    simp only [massForm, Pi.smul_apply, smul_eq_mul, mul_assoc, Finset.mul_sum]
+  · intro b w
+    simp only [massForm, Pi.zero_apply, zero_mul, Finset.sum_const_zero]
+  · intro a b b' w
+    simp only [massForm, Pi.add_apply, mul_add, Finset.sum_add_distrib]
+  · intro c a b w
+    simp only [massForm, Pi.smul_apply, smul_eq_mul, mul_left_comm, Finset.mul_sum]
+  · intro a w
+    simp only [massForm, Pi.zero_apply, mul_zero, Finset.sum_const_zero]
 
 theorem C06_loadForm_linear (ncomp : Nat) : C01.IsLinear (loadForm (K := K) ncomp) := by
-  sorry
+  constructor
+  · intro b b' w
+    simp only [loadForm, Pi.add_apply, mul_add, Finset.sum_add_distrib]
+  · intro c b w
+    simp only [loadForm, Pi.smul_apply, smul_eq_mul, mul_left_comm, Finset.mul_sum]
+  · intro w
+    simp only [loadForm, Pi.zero_apply, mul_zero, Finset.sum_const_zero]
 
 /-- **projection identity** (tested against any `v`): if the function to be projected is the
     interpolation of a coefficient vector `xs` (same basis, same quadrature), then
@@ -45,7 +64,9 @@ theorem C06_projection_identity (Nb nt nq ncomp : Nat) (b : BasisData K) (w0 : N
     (dx : Nat → Nat → K) (dofs : Nat → Nat → Nat) (xs v : Nat → K) :
     actionLin (linearPairs Nb nt nq (loadForm ncomp) b (fun k q => interp Nb xs dofs b k q) dx dofs) v
       = actionBil (bilinearTriplets Nb Nb nt nq (massForm ncomp) b b w0 dx dofs dofs) xs v := by
-  sorry
+  rw [C01.C01_linear_represents Nb nt nq (loadForm ncomp) (C06_loadForm_linear ncomp),
+    C01.C01_bilinear_represents Nb Nb nt nq (massForm ncomp) (C06_massForm_bilinear ncomp)]
+  rfl
 
 /-- entrywise version: `b_r = Σ_c M_rc xs_c` when all DOF numbers are `< N` -/
 theorem C06_projection_identity_entry (Nb nt nq ncomp N : Nat) (b : BasisData K)
@@ -54,7 +75,13 @@ theorem C06_projection_identity_entry (Nb nt nq ncomp N : Nat) (b : BasisData K)
     denseVecEntry (linearPairs Nb nt nq (loadForm ncomp) b (fun k q => interp Nb xs dofs b k q) dx dofs) r
       = ∑ c ∈ Finset.range N,
           denseEntry (bilinearTriplets Nb Nb nt nq (massForm ncomp) b b w0 dx dofs dofs) r c * xs c := by
-  sorry
+  have h := C06_projection_identity Nb nt nq ncomp b w0 dx dofs xs
+    (fun i => if i = r then (1 : K) else 0)
+  rw [actionLin_indicator,
+    C01.C01_coo_dense _ N N (mem_bilinearTriplets_lt Nb Nb nt nq N N (massForm ncomp) b b w0 dx
+      dofs dofs hdofs hdofs),
+    dense_indicator_row N N _ xs r hr] at h
+  exact h
 
 /-- hence the projection returns `xs` whenever the mass matrix is injective (nonsingular):
     any `z` with `M z = b` equals `xs` -/
@@ -62,7 +89,8 @@ theorem C06_projection_returns (N : Nat) (M : Nat → Nat → K) (bvec xs z : Na
     (hb : ∀ r < N, bvec r = matVec N M xs r)
     (hinj : ∀ y y' : Nat → K, (∀ r < N, matVec N M y r = matVec N M y' r) → ∀ r < N, y r = y' r)
     (hz : ∀ r < N, matVec N M z r = bvec r) : ∀ r < N, z r = xs r := by
-  sorry
+  refine hinj z xs (fun r hr => ?_)
+  rw [hz r hr, hb r hr]
 
 /-- **patch test** (modulo `hGalerkin`): let `xs` be the coefficient vector of the exact solution in
     the space.  If the discrete equations hold for `xs` on the kept rows (`hGalerkin`), the prescribed
@@ -80,7 +108,19 @@ theorem C06_patch (n : Nat) (A : Nat → Nat → K) (b x xs : Nat → K) (I D : 
     (hsol : ∀ p (hp : p < I.length),
       condensedRowApply A I sol (I[p]) = (condenseRhs A b x I D)[p]'(by simp [condenseRhs]; exact hp)) :
     ∀ i < n, expandSol x I sol i = xs i := by
-  sorry
+  have hrestr : sol = I.map xs := by
+    refine hinj sol (I.map xs) hlen (List.length_map _) (fun i hi => ?_)
+    obtain ⟨p, hp, rfl⟩ := List.getElem_of_mem hi
+    rw [hsol p hp,
+      restrict_solves_condensed n A b x xs I D hI hD hdisj hcover hx (I[p]) (hGalerkin _ hi)]
+    simp only [condenseRhs, List.getElem_map]
+  intro i hin
+  rcases (hcover i).1 hin with hi | hi
+  · obtain ⟨p, hp, rfl⟩ := List.getElem_of_mem hi
+    rw [C05.C05_expand_on x I sol hI hlen p hp]
+    simp only [hrestr, List.getElem_map]
+  · rw [C05.C05_expand_off x I sol i (fun h => hdisj i h hi)]
+    exact hx i hi
 
 /-- the boundary data: projecting onto the trace space and copying the values on the DOFs returned
     by the DOF query gives a prescribed vector that agrees with `xs` there (instance of the
@@ -88,6 +128,7 @@ theorem C06_patch (n : Nat) (A : Nat → Nat → K) (b x xs : Nat → K) (I D : 
     prescribed vector copies `y` on `Dq`, the hypothesis `hx` of `C06_patch` holds -/
 theorem C06_boundary_data (x y xs : Nat → K) (Dq : List Nat)
     (hy : ∀ d ∈ Dq, y d = xs d) (hcopy : ∀ d ∈ Dq, x d = y d) : ∀ d ∈ Dq, x d = xs d := by
-  sorry
+  intro d hd
+  rw [hcopy d hd, hy d hd]
 
 end Skv.C06
